@@ -341,3 +341,41 @@ theorem mapSubtree_seal_parentless (t : Nat) (s : Bool) (tr : Tree) :
   | node m its => unfold Tree.mapSubtree; split <;> simp [Tree.seal, Tree.parentless]
 
 end Pg.Sym
+
+namespace Pg.Sym
+
+/-! ### clear / sort / reverse with their change notification (6daab50) -/
+
+theorem clearAndNotify_ok (f : Forest) (n : Bool) (t : Nat) (m : Meta) (its : Items) (hf : f.ok = true)
+    (hits : okItems m.id m.path its = true) : (clearAndNotify Cfg.patched f n t m its).ok = true := by
+  unfold clearAndNotify
+  simp only
+  split
+  · exact notify_ok _ _ (dropAll_ok f t m its hf hits)
+  · exact dropAll_ok f t m its hf hits
+
+theorem clearAndNotify_free (f : Forest) (n : Bool) (t : Nat) (m : Meta) (its : Items) (hf : f.rootsFree = true) :
+    (clearAndNotify Cfg.patched f n t m its).rootsFree = true := by
+  unfold clearAndNotify
+  simp only
+  split
+  · exact notify_free _ _ (dropAll_free f t m its hf)
+  · exact dropAll_free f t m its hf
+
+theorem permuteAndNotify_ok (f : Forest) (n : Bool) (t : Nat) (its : Items) (g : Items → Items)
+    (hg : NoNewValues g) (hf : f.ok = true) : (permuteAndNotify Cfg.patched f n t its g).ok = true := by
+  unfold permuteAndNotify
+  simp only
+  split
+  · exact notify_ok _ _ (permute_ok f t g hg hf)
+  · exact permute_ok f t g hg hf
+
+theorem permuteAndNotify_free (f : Forest) (n : Bool) (t : Nat) (its : Items) (g : Items → Items)
+    (hf : f.rootsFree = true) : (permuteAndNotify Cfg.patched f n t its g).rootsFree = true := by
+  unfold permuteAndNotify
+  simp only
+  split
+  · exact notify_free _ _ (permute_free f t g hf)
+  · exact permute_free f t g hf
+
+end Pg.Sym
